@@ -1,5 +1,6 @@
 """Registry: property id -> check function(tier, replay_path) -> exit code."""
-from . import engine
+from . import engine, server
 
 REGISTRY = {}
 REGISTRY.update(engine.REGISTRY)
+REGISTRY.update(server.REGISTRY)
